@@ -38,6 +38,12 @@ CHECKS = {
  "C06": dict(cat="model_checking", ref="5/C06",
    tech="TLA+ specs Replies.tla (reply function), Extract.tla and Trace_Conn.tla (per-connection queues: toReport, msgChan, write-callback and wire queues, platform serial); TLC trace validation of events recorded from a live server (terminal sockets, TerminalEventer callbacks, writer hook points) under seeded concurrent conversations",
    text="A live default-configuration server is driven over loopback TCP by concurrent harness terminals with seeded conversations over every default-registered terminal id, responses, platform ids, unsupported ids, both header versions, serials around 0/65535, the all-zero phone, coalesced/split writes and interleaved sub-packaged messages. Every event - bytes sent, read callback, dequeue by the writer, reply start, write callback with the bytes, frame received by the terminal - is stepped through Trace_Conn, which keeps the implementation's queues and the platform serial and derives each reply from Replies!ReplyFor: exactly one reply per reply-bearing message, right type/addressing/echo, in request order, consecutive serials (the thorough tier crosses 65535), read callback before the writer touches the message, write callback once with the bytes sent, nothing left over at quiescence."),
+ "C12": dict(cat="model_checking", ref="5/C12",
+   tech="TLA+ spec MC_Conn.tla (writer/timer/manager/caller protocol with wrapping serials: OwnResponse, OwnTimeout, WrittenOnce, ResultsSane) checked exhaustively by TLC; Trace_Conn.tla trace validation of live concurrent callers against scripted terminals (hook points cmd_written / resp_match / w_complete, caller call/return); serial-wrap stale-timer scenario on the live server",
+   text="TLC explores every interleaving of 2-3 callers, the manager, the writer, time-out goroutines and a responding terminal with a platform serial that wraps at a small modulus, checking that a response result belongs to the caller's own serial, that a time-out comes from the timer armed for that very request, and that each call returns once. On a live server three concurrent callers per scripted terminal (prompt, late, duplicated, unknown-serial, reverse-order, absent responses; 7 command types; time-outs 30 ms..1.5 s; offline keys; ordinary traffic in between) are recorded at the writer's hook points and stepped through Trace_Conn: command written once with the fresh serial and the session's header, response matched exactly when its echoed serial is outstanding, completion delivered to the issuing caller, time-outs within their window, other traffic answered in order. A wrap scenario (65535 heartbeats between two commands) checks the stale-timer case on the real code."),
+ "C13": dict(cat="model_checking", ref="5/C13",
+   tech="TLA+ spec MC_Conn.tla (each step of stop(), writer select branches, check-then-send timers, manager, callers, terminal closing at any point): invariant NoPanic and liveness Returns under fairness checked by TLC; disconnect scenario catalogue on a live server in a child process with scheduler gates at hook points reproducing the model's interleavings; Trace_Conn on what happened",
+   text="TLC checks on the connection protocol that no send can hit a closed channel (NoPanic) and that every waiting SendActiveMessage caller eventually returns (Returns, under weak/strong fairness of every goroutine and an eventually-closing terminal), for every interleaving within the stated capacities; the as-found protocol (Protocol = \"asis\") violates both, and those counterexamples define the gate orderings. The live catalogue (close with a command outstanding / queued, writer holding a command while the reader tears down, timer between check and send, command routed just before leave, response matched during teardown, close before join, mid-frame, random storms) runs in a child process: a panic or a call that has not returned 3 s after its time-out is a violation; the recorded events are also stepped through Trace_Conn."),
 }
 
 NA_REASON = "check not built yet (work in progress; see DESIGN.md section 10)"
